@@ -9,6 +9,13 @@ NOTE = ('Trusted: Lean 4.33 kernel; axioms within {propext, Classical.choice, Qu
         'Python generators/oracles; 64-bit usize.')
 
 CLAIMS = {
+ 'C15': dict(category='proof', technique='Lean 4 theorems on the accessor model (rand_time / rand_bytes / cipher_suites) and on parsed hellos + exact-oracle execution of every accessor and constructor',
+   text='Theorems randTime_eq (big-endian u32 of the first four random bytes), randBytes_eq, rand_split, randTime_lt, parsed_hello_random (every parsed ClientHello has a 32-byte random, 28 rand_bytes, rand_time = first four bytes), cipherSuites_length / cipherSuites_get (each advertised id, in order, maps to its registry lookup). The plain accessors are the structure fields. Tie: parsed TLS and DTLS ClientHellos and constructed ClientHello / ServerHello values (boundary random lengths and leading words) with every accessor compared with the generator\'s own field values and the registry file.',
+   design_ref='DESIGN.md section 6 C15'),
+ 'C17': dict(category='proof', technique='registry tables regenerated from the running implementation over the whole domain of every registry type, proved equal to a hand-entered IANA reference by decide +kernel; Lean theorems for SignatureScheme arithmetic; exhaustive textual comparison of Display/Debug/conversions/key_bits',
+   text='Kernel-checked on regenerated tables: impl_constants_eq_iana (all 207 named constants have the reference value, none missing or extra), impl_names_eq_constants (over the whole domain of every Display type, the values not printing the numeric fallback are exactly the named constants with exactly their names), impl_debug_eq_display, impl_keybits_named_sizes / impl_keybits_only_registered, impl_record_limits; sigScheme_split / sigScheme_reserved_iff for all values. Tie: every value of every registry type through disp / dbg / conv / keybits / sigscheme compared with the reference (572k lines).',
+   design_ref='DESIGN.md section 6 C17',
+   note='reference/iana.py is hand-entered (trusted). ' + NOTE),
  'C12': dict(category='proof', technique='registry tables regenerated from the running implementation and from the registry file, checked against each other / the pinned copy / the size specification by decide +kernel; general Lean theorems on the lookup model; exhaustive id and name sweeps',
    text='Kernel-checked on the regenerated tables: runtime_eq_file (the dumped CIPHERS map equals the file mapped through the documented token table, all 10 columns and 3 derived sizes, row for row), pinned_sub_file (every IANA assignment of the pinned copy is present unchanged), runtime_ids_sorted (no duplicate id, key = id), runtime_names_distinct, runtime_derived_sizes. General theorems for every id / name: registry_fromId (some iff listed, and the suite carries the id), registry_fromName (the unique suite with that name, none for any other string). Tie: all 65536 ids through the four lookup routes and the full row through from_id, every name and 8+ perturbations through both name routes, compared with the registry file; name-token agreement by rules over every row.',
    design_ref='DESIGN.md section 6 C12',
